@@ -1,7 +1,7 @@
 \* C12 quick tier: all families
 SPECIFICATION Spec
 CONSTANTS AllUnits257 = TRUE  Degs257 = {1, 2}  MaxBlow257 = 8  NRnd = 2
-          BigSizes = {64, 128, 256, 512, 1024, 2048, 4096, 8192}  NSparse = 4  NDense = 4  KIdx = 12  FullUpTo = 512
-          Fams = {"small97", "small257", "sparse", "dense", "pidx", "rows"}
+          BigSizes = {64, 128, 256, 512, 1024, 2048, 4096, 8192}  NSparse = 4  NDense = 4  KIdx = 12  FullUpTo = 512  NGrid = 1
+          Fams = {"small97", "small257", "sparse", "dense", "grid", "pidx", "rows"}
 ACTION_CONSTRAINT Emit
 CHECK_DEADLOCK FALSE
